@@ -323,7 +323,7 @@ def emit_fn(asm, fnrec, sig, body, contract, ret_name):
             body = insert_at_anchor(body, h['where'], h['anchor'], h['nth'], '\n'.join(h['text']))
         except ExtractError as e:
             # the anchored statement is gone: the hint is dropped and the verifier decides on the code that is there; a
-            # failure of a *named postcondition* is still reported, other proof steps of this function become `undecided`
+            # every failure inside this function is then reported as `undecided` (exit 2), never as a violation
             fnrec.skipped_hints.append(h['anchor'])
             asm.manual.append('%s: proof hint dropped, anchor %r absent' % (fnrec.key, h['anchor']))
     first = len(asm.lines) + 1
